@@ -260,6 +260,59 @@ func c06NestedContext(r *run.Run, maxLen int) {
 		})
 }
 
+// c06NestedLigature: a nested ligature / multiple substitution that skips marks the parent matched as
+// ordinary input glyphs, followed (or preceded) by a second action at every sequence index: the
+// positions the parent recorded for its input glyphs have to be renumbered after glyphs were merged or
+// inserted, also for an unmerged glyph lying between ligature components.
+func c06NestedLigature(r *run.Run, maxLen int) {
+	alphabet := []glyph.ID{gen.GA, gen.GM}
+	var pats []gen.Pattern
+	for n := 3; n <= 5; n++ {
+		for bits := 0; bits < 1<<(n-1); bits++ {
+			in := []glyph.ID{gen.GA}
+			name := "A"
+			for i := 0; i < n-1; i++ {
+				if bits>>i&1 != 0 {
+					in = append(in, gen.GM)
+					name += "M"
+				} else {
+					in = append(in, gen.GA)
+					name += "A"
+				}
+			}
+			pats = append(pats, gen.Pattern{Name: name, Input: in})
+		}
+	}
+	children := []int{5, 7, 2, 3} // AAA->X AA->Y AB->L; AM->X A->Y; A->AM B->XYA; A->AA
+	r.Explore(explore.Config{Name: "C06.nested-ligature", Deadline: r.PartDeadline(0.2)},
+		fmt.Sprintf("lists [context parent without flags, ligature or multiple-substitution child, single-substitution child mapping every glyph]: all %d parent patterns A{A,M}^2..4 x context format 1-3 x 4 children x child flags {none, ignore marks} x the child's action at sequence index 0/1 x the second action at every sequence index 0..4, before or after it, on all glyph sequences of length <= %d over {A,M}", len(pats), maxLen),
+		func(c *explore.Ctx) {
+			pat := pats[c.Choose(len(pats), "parent pattern")]
+			form := c.Choose(3, "parent form")
+			child := gen.GsubSimple[children[c.Choose(len(children), "child")]]
+			cf := gen.Flags[c.Choose(2, "child flags")]
+			at := c.Choose(2, "child at sequence index")
+			at2 := c.Choose(5, "second action at sequence index")
+			if at2 >= len(pat.Input) {
+				c.Skip("sequence index outside the pattern")
+			}
+			actions := []gtab.SeqLookup{{SequenceIndex: uint16(at), LookupListIndex: 1}, {SequenceIndex: uint16(at2), LookupListIndex: 2}}
+			if c.Bool("second action first") {
+				actions[0], actions[1] = actions[1], actions[0]
+			}
+			other := gen.GsubSimple[1]
+			ll := gtab.LookupList{
+				gen.MakeLookup(5, gen.Flags[0], []gtab.Subtable{gen.Context(form, pat, actions)}),
+				gen.MakeLookup(child.Type, cf, child.Sub()),
+				gen.MakeLookup(other.Type, gen.Flags[0], other.Sub()),
+			}
+			gd, _ := gen.Gdef(0)
+			desc := []string{fmt.Sprintf("0: %s [%s] actions %v", gen.ContextForms[form], pat.Name, actions), "1: " + child.Name + " " + cf.Name, "2: " + other.Name}
+			c.Sample(func() any { return desc })
+			compareShaping(c, ll, gd, []gtab.LookupIndex{0}, false, alphabet, maxLen, "nested ligature: "+gen.ContextForms[form]+" / "+child.Name, desc)
+		})
+}
+
 func init() {
 	Register("C06", func(r *run.Run) {
 		r.Rule = "lookup lists from the shared generator x ALL input sequences up to a length bound; library result compared with the token-list reference shaper; cases the specification + testcases sections 1-3 do not define are counted, not compared; non-trivial = lookup lists for which at least one compared sequence had a matching rule"
@@ -279,6 +332,7 @@ func init() {
 		// cheap parts first; the deviation-bounded nested lists are the largest and take what remains
 		c06Subtables(r, maxLen-1)
 		c06NestedContext(r, maxLen)
+		c06NestedLigature(r, maxLen+1)
 		c06Simple(r, maxLen-1)
 		c06NestedFlags(r, maxLen-1)
 		c06Nested(r, maxLen, bound)
